@@ -27,11 +27,16 @@ def detect_sarif_tools(filenames: list[Path]) -> DefaultDict[str, list[str]]:
     }
     for fname in filenames:
         data = json.loads(fname.read_text(encoding="utf-8-sig"))
+        detected_in_file: set[str] = set()
         for name, det in detectors.items():
             # TODO: handle malformed sarif?
             for run in data["runs"]:
                 try:
                     if det.detect(run):
+                        if name in detected_in_file:
+                            # several runs of one tool in the same file are one input
+                            continue
+                        detected_in_file.add(name)
                         logger.debug("detected %s sarif: %s", name, fname)
                         # According to the Codemodder spec, it is invalid to have multiple SARIF results for the same tool
                         # https://github.com/pixee/codemodder-specs/pull/36
